@@ -213,8 +213,15 @@ func runPool(units []Unit, procs int) []UnitResult {
 				if u.Bin == "sp" {
 					bin = filepath.Join(verifDir, ".cache", "bin", "engine-sp")
 				}
+				if u.Bin == "race" {
+					bin = filepath.Join(verifDir, ".cache", "bin", "engine-race")
+					os.MkdirAll(filepath.Join(verifDir, ".cache", "race"), 0o755)
+				}
 				cmd := exec.Command(bin, "unit", string(b))
 				cmd.Env = append(os.Environ(), "GOMAXPROCS=2")
+				if u.Bin == "race" && !race {
+					cmd.Env = append(cmd.Env, "GORACE=halt_on_error=0 log_path="+filepath.Join(verifDir, ".cache", "race", fmt.Sprintf("p%d", i)))
+				}
 				if race {
 					cmd.Env = append(cmd.Env, "GOMAXPROCS=1")
 					cmd.Env = append(cmd.Env, "GORACE=halt_on_error=0 log_path="+filepath.Join(verifDir, ".cache", "race", fmt.Sprintf("u%d", i)))
